@@ -331,3 +331,625 @@ func (c *Ctx) ruleM4(rule string) {
 	c.Check(rule, "RuleEntity.Execute#zero-to-nil", nilRet, f.Pos(), "a return of a nil interface guarded by `v == reflect.ValueOf(nil)` must exist (bare return => nil)")
 	c.Check(rule, "RuleEntity.Execute#value-to-interface", ifaceRet, f.Pos(), "the returned value must be v.Interface()")
 }
+
+// ---- error list and error values ---------------------------------------------
+
+// errList finds the []string variable that collects rule errors (appended to).
+func (m *engFn) errList() *ssa.Alloc {
+	var found *ssa.Alloc
+	eachInstrDeep(m.fn, func(f *ssa.Function, in ssa.Instruction) {
+		st, ok := in.(*ssa.Store)
+		if !ok {
+			return
+		}
+		al, ok := m.x.ResolveAddr(st.Addr).(*ssa.Alloc)
+		if !ok || al.Parent() != m.fn {
+			return
+		}
+		sl, ok := al.Type().(*types.Pointer).Elem().Underlying().(*types.Slice)
+		if !ok {
+			return
+		}
+		if b, ok := sl.Elem().Underlying().(*types.Basic); !ok || b.Kind() != types.String {
+			return
+		}
+		if args, ok := builtinCall(st.Val, "append"); ok && m.x.Cell(args[0]) == al {
+			if found == nil || al.Pos() < found.Pos() {
+				found = al
+			}
+		}
+	})
+	return found
+}
+
+func (m *engFn) isErrListStore(in ssa.Instruction, e *ssa.Alloc) bool {
+	st, ok := in.(*ssa.Store)
+	if !ok || e == nil {
+		return false
+	}
+	if m.x.ResolveAddr(st.Addr) != ssa.Value(e) {
+		return false
+	}
+	args, ok := builtinCall(st.Val, "append")
+	return ok && m.x.Cell(args[0]) == e
+}
+
+func isNewError(v ssa.Value) bool {
+	call, ok := v.(*ssa.Call)
+	if !ok {
+		return false
+	}
+	f := call.Call.StaticCallee()
+	if f == nil {
+		return false
+	}
+	return fnIs(f, "errors", "", "New") || fnIs(f, "fmt", "", "Errorf")
+}
+
+// ---- A3: sequential rule loop discipline ----------------------------------------
+
+type seqLoop struct {
+	site    *execSite
+	loop    *Loop
+	ranged  ssa.Value // slice being ranged
+	hasStop bool      // an error-stop exit exists
+	hasTag  bool      // a stop-tag exit exists
+	records bool      // errors are appended to the error list
+}
+
+func (m *engFn) syncLoopSites() []*seqLoop {
+	var out []*seqLoop
+	for _, e := range m.execs {
+		if e.in != m.fn {
+			continue
+		}
+		l := m.x.InnermostLoop(e.call.Block())
+		if l == nil {
+			continue
+		}
+		sl := &seqLoop{site: e, loop: l}
+		if s, rl, ok := m.x.rangedSlice(e.call.Call.Args[0]); ok && rl == l {
+			sl.ranged = s
+		}
+		out = append(out, sl)
+	}
+	return out
+}
+
+// ruleA3 checks every sequential rule loop of the function. policy: "param"
+// (use the bool parameter), decided per loop below.
+func (c *Ctx) ruleA3(rule string, fn *ssa.Function) []*seqLoop {
+	m := c.engModel(fn)
+	x := m.x
+	E := m.errList()
+	bPar := m.policyParam()
+	sPar := m.stagParam()
+	loops := m.syncLoopSites()
+	for _, sl := range loops {
+		e, L := sl.site, sl.loop
+		key := e.key()
+		fail := func(sub string, p token.Pos, f string, a ...interface{}) {
+			c.Check(rule, key+"/"+sub, false, p, f, a...)
+		}
+		pass := func(sub string, f string, a ...interface{}) {
+			c.Check(rule, key+"/"+sub, true, e.call.Pos(), f, a...)
+		}
+		// R4: one execution per iteration
+		n := 0
+		for _, o := range m.execs {
+			if o.in == m.fn && L.Blocks[o.call.Block()] {
+				n++
+			}
+		}
+		if n != 1 {
+			fail("once", e.call.Pos(), "%d rule executions inside one sequential loop iteration (want exactly one)", n)
+		} else {
+			pass("once", "one RuleEntity.Execute per iteration")
+		}
+		if sl.ranged == nil {
+			fail("ranged", e.call.Pos(), "the executed rule is not the element of the slice this loop ranges over")
+		} else {
+			pass("ranged", "executes the element of %s", x.Describe(sl.ranged))
+		}
+		// the err != nil test
+		var errIf *ssa.If
+		eachInstr(fn, func(in ssa.Instruction) {
+			if iff, ok := in.(*ssa.If); ok && L.Blocks[iff.Block()] {
+				if s, neq, ok := nilCheck(iff.Cond); ok && neq && m.isExtract(s, e.call, 1) {
+					errIf = iff
+				}
+			}
+		})
+		headStart := L.Head.Instrs[0]
+		if errIf == nil {
+			fail("err-tested", e.call.Pos(), "the error of the rule execution is not tested with `!= nil` inside the loop")
+			continue
+		}
+		if hit, found := pathExists(fn, e.call, func(in ssa.Instruction) bool { return in == headStart || isExit(in) }, func(in ssa.Instruction) bool { return in == ssa.Instruction(errIf) }); found {
+			fail("err-tested", hit.Pos(), "a path from the rule execution reaches the next iteration or an exit without testing its error")
+		} else {
+			pass("err-tested", "error tested on every path")
+		}
+		// exit edges
+		normalExit := map[*ssa.BasicBlock]bool{}
+		for _, s := range L.Head.Succs {
+			if !L.Blocks[s] {
+				normalExit[s] = true
+			}
+		}
+		var blocks []*ssa.BasicBlock
+		for b := range L.Blocks {
+			blocks = append(blocks, b)
+		}
+		sort.Slice(blocks, func(i, j int) bool { return blocks[i].Index < blocks[j].Index })
+		exitOK := true
+		for _, b := range blocks {
+			for i, s := range b.Succs {
+				if L.Blocks[s] || b == L.Head {
+					continue
+				}
+				// guards of the edge, restricted to tests made inside the loop
+				gs := x.GuardsOf(b)
+				if iff, ok := b.Instrs[len(b.Instrs)-1].(*ssa.If); ok {
+					gs = append(gs, Guard{iff, iff.Cond, i == 0})
+				}
+				errNonNil, bFalse, tagTrue, other := false, false, false, ""
+				for _, g := range gs {
+					if !L.Blocks[g.If.Block()] || g.If.Block() == L.Head {
+						continue
+					}
+					if sbj, neq, ok := nilCheck(g.Cond); ok && m.isExtract(sbj, e.call, 1) {
+						if neq == g.Pol {
+							errNonNil = true
+						} else {
+							other = "exit under err == nil"
+						}
+						continue
+					}
+					if bPar != nil && x.Origin(g.Cond) == ssa.Value(bPar) {
+						if !g.Pol {
+							bFalse = true
+						} else {
+							other = "exit under continue-on-error"
+						}
+						continue
+					}
+					if base, ok := x.isFieldLoad(g.Cond, "Stag", "StopTag"); ok && sPar != nil && x.Origin(base) == ssa.Value(sPar) {
+						if g.Pol {
+							tagTrue = true
+						} else {
+							other = "exit under StopTag == false"
+						}
+						continue
+					}
+					if m.isExtract(g.Cond, e.call, 2) {
+						// being on one side of the returned-flag test is irrelevant only if both sides exit alike; treat as foreign
+						other = "exit depends on the returned-flag"
+						continue
+					}
+					d := x.Describe(g.Cond)
+					if !g.Pol {
+						d = "!" + d
+					}
+					other = "exit depends on " + d
+				}
+				epos := b.Instrs[len(b.Instrs)-1].Pos()
+				if !epos.IsValid() && len(s.Instrs) > 0 {
+					epos = s.Instrs[0].Pos()
+				}
+				switch {
+				case other != "":
+					exitOK = false
+					fail(fmt.Sprintf("exit-b%d", b.Index), epos, "unexpected way out of the sequential rule loop: %s (guards: %s)", other, x.describeGuards(gs))
+				case tagTrue && !errNonNil:
+					sl.hasTag = true
+					// the tag must be read after this iteration's rule ran, and lead to the normal exit
+					var ld ssa.Instruction
+					for _, g := range gs {
+						if _, ok := x.isFieldLoad(g.Cond, "Stag", "StopTag"); ok {
+							if u, ok := x.Origin(g.Cond).(*ssa.UnOp); ok {
+								ld = u
+							}
+						}
+					}
+					if ld == nil || !domInstr(e.call, ld) {
+						exitOK = false
+						fail("tag-after-rule", epos, "the stop tag is not read after the rule execution of the same iteration")
+					}
+					if !normalExit[s] {
+						exitOK = false
+						fail("tag-exit-target", epos, "the stop-tag exit does not continue at the loop's normal exit (the collected errors would be lost)")
+					}
+				case errNonNil && (bPar == nil || bFalse) && !tagTrue:
+					// error stop: nothing else may run, a non-nil error is returned
+					if bPar == nil && E != nil && x.storeReaches(E, L) {
+						exitOK = false
+						fail("stop-in-continue-loop", epos, "this loop has no error-policy flag and collects errors (continue-on-error), yet it returns at the first error")
+						continue
+					}
+					sl.hasStop = true
+					first := s.Instrs[0]
+					if hit, found := pathFrom(first, func(in ssa.Instruction) bool {
+						if _, ok := in.(*ssa.Go); ok {
+							return true
+						}
+						if call, ok := in.(*ssa.Call); ok && calleeIs(call, pBase, "RuleEntity", "Execute") {
+							return true
+						}
+						return false
+					}, nil); found {
+						exitOK = false
+						fail("stop-runs-more", hit.Pos(), "after stopping at a failed rule another rule still runs")
+					}
+					if hit, found := pathFrom(first, func(in ssa.Instruction) bool {
+						r, ok := in.(*ssa.Return)
+						if !ok {
+							return false
+						}
+						for _, pv := range x.PossibleValues(r.Results[len(r.Results)-1]) {
+							if pv.V != nil && isNewError(pv.V) {
+								continue
+							}
+							if pv.V != nil && m.isExtract(pv.V, e.call, 1) {
+								continue
+							}
+							return true
+						}
+						return false
+					}, nil); found {
+						exitOK = false
+						fail("stop-returns-error", hit.Pos(), "the stop-on-error exit can return something other than a non-nil error")
+					}
+				default:
+					exitOK = false
+					fail(fmt.Sprintf("exit-b%d", b.Index), epos, "unexpected way out of the sequential rule loop (guards: %s): allowed are only `err != nil && !continueOnError -> return error` and the stop-tag break", x.describeGuards(gs))
+				}
+			}
+		}
+		if exitOK {
+			pass("exits", "every exit of the loop is the loop end, the stop-on-error return or the stop-tag break")
+		}
+		// R2: a failure is either recorded or stops the loop
+		tb := errIf.Block().Succs[0]
+		if hit, found := pathFrom(tb.Instrs[0], func(in ssa.Instruction) bool { return in == headStart }, func(in ssa.Instruction) bool { return m.isErrListStore(in, E) }); found {
+			_ = hit
+			fail("failure-recorded", errIf.Pos(), "a failed rule can be followed by the next iteration without its error being recorded in the error list")
+		} else {
+			pass("failure-recorded", "after a failure the loop either stops or records the error")
+		}
+		sl.records = false
+		if E != nil {
+			if _, found := pathFrom(tb.Instrs[0], func(in ssa.Instruction) bool { return m.isErrListStore(in, E) }, nil); found {
+				sl.records = true
+			}
+		}
+		// required exits by policy
+		switch {
+		case bPar != nil:
+			if !sl.hasStop {
+				fail("policy-stop", errIf.Pos(), "with stop-on-error (flag false) the loop must return at the first failed rule, but no such exit exists")
+			} else if !sl.records {
+				fail("policy-continue", errIf.Pos(), "with continue-on-error (flag true) the error must be collected, but nothing is appended to the error list")
+			} else {
+				pass("policy", "flag false -> return the error; flag true -> collect and continue")
+			}
+		case E == nil || !sl.records:
+			if !sl.hasStop {
+				fail("policy-stop", errIf.Pos(), "this loop neither collects errors nor stops at the first failure")
+			} else {
+				pass("policy", "constant stop-on-error")
+			}
+		default:
+			pass("policy", "constant continue-on-error, errors collected")
+		}
+		// A3-T
+		if sPar != nil {
+			isTagIf := func(in ssa.Instruction) bool {
+				iff, ok := in.(*ssa.If)
+				if !ok {
+					return false
+				}
+				base, ok := x.isFieldLoad(iff.Cond, "Stag", "StopTag")
+				return ok && x.Origin(base) == ssa.Value(sPar)
+			}
+			if _, found := pathExists(fn, e.call, func(in ssa.Instruction) bool { return in == headStart }, isTagIf); found {
+				fail("tag-checked", e.call.Pos(), "a path from the rule execution to the next iteration does not read the stop tag")
+			} else if !sl.hasTag {
+				fail("tag-checked", e.call.Pos(), "the stop tag is read but a true tag does not leave the loop")
+			} else {
+				pass("tag-checked", "stop tag read after every rule; true leaves the loop")
+			}
+		}
+	}
+	return loops
+}
+
+// storeReaches: some append to the error list happens inside the loop.
+func (x *FnIndex) storeReaches(e *ssa.Alloc, l *Loop) bool {
+	for _, st := range x.stores[e] {
+		if l.Blocks[st.Block()] {
+			return true
+		}
+	}
+	return false
+}
+
+// pathFrom is pathExists starting at (and including) a given instruction.
+func pathFrom(first ssa.Instruction, to func(ssa.Instruction) bool, blocked func(ssa.Instruction) bool) (ssa.Instruction, bool) {
+	if to(first) {
+		return first, true
+	}
+	if blocked != nil && blocked(first) {
+		return nil, false
+	}
+	return pathExists(first.Parent(), first, to, blocked)
+}
+
+// ---- R7 / O4: collected errors surface -------------------------------------------
+
+// ruleErrSurface: a nil (or passed-through) error is returned only when the
+// error list is known to be empty; a return under len(list)>0 is a new error.
+func (c *Ctx) ruleErrSurface(rule string, fn *ssa.Function) {
+	m := c.engModel(fn)
+	x := m.x
+	E := m.errList()
+	if E == nil {
+		c.Check(rule, fnName(fn)+"#no-error-list", true, fn.Pos(), "function keeps no error list")
+		return
+	}
+	// writers: in-function appends and go statements whose literal appends
+	isWriter := func(in ssa.Instruction) bool {
+		if m.isErrListStore(in, E) {
+			return true
+		}
+		if g, ok := in.(*ssa.Go); ok {
+			if mc, ok := g.Call.Value.(*ssa.MakeClosure); ok {
+				if af, ok := mc.Fn.(*ssa.Function); ok {
+					w := false
+					eachInstrDeep(af, func(_ *ssa.Function, i2 ssa.Instruction) {
+						if m.isErrListStore(i2, E) {
+							w = true
+						}
+					})
+					return w
+				}
+			}
+		}
+		return false
+	}
+	var writers []ssa.Instruction
+	eachInstr(fn, func(in ssa.Instruction) {
+		if isWriter(in) {
+			writers = append(writers, in)
+		}
+	})
+	ri := 0
+	eachInstr(fn, func(in ssa.Instruction) {
+		r, ok := in.(*ssa.Return)
+		if !ok {
+			return
+		}
+		ri++
+		key := fmt.Sprintf("%s#return%d", fnName(fn), ri)
+		reach := false
+		for _, w := range writers {
+			if _, found := pathExists(fn, w, func(i2 ssa.Instruction) bool { return i2 == in }, nil); found {
+				reach = true
+			}
+		}
+		// guard on the list
+		emptyKnown, nonEmptyKnown := false, false
+		for _, g := range x.GuardsOf(r.Block()) {
+			if arg, nonEmpty, ok := lenCmp(g.Cond); ok && x.Cell(arg) == E {
+				if nonEmpty == g.Pol {
+					nonEmptyKnown = true
+				} else {
+					emptyKnown = true
+				}
+			}
+		}
+		vals := x.PossibleValues(r.Results[len(r.Results)-1])
+		ok2 := true
+		why := "ok"
+		for _, pv := range vals {
+			isNew := pv.V != nil && isNewError(pv.V)
+			if nonEmptyKnown && !isNew {
+				ok2, why = false, "under len(errors) > 0 the function returns "+x.Describe(pv.V)+" instead of a new error"
+			}
+			if !isNew && reach && !emptyKnown && !nonEmptyKnown {
+				// returning nil / a single rule's error while collected errors may be pending
+				if pv.V != nil && !isConstNil(pv.V) && x.knownNonNil(pv.V, r.Block()) {
+					continue // a definite error is returned anyway
+				}
+				ok2, why = false, "returns "+x.Describe(pv.V)+" although errors may have been collected and the list is not known to be empty here"
+			}
+		}
+		c.Check(rule, key, ok2, r.Pos(), "%s", why)
+	})
+}
+
+// ---- O1: comparator direction ---------------------------------------------------
+
+type sortSite struct {
+	call  *ssa.Call
+	fn    *ssa.Function
+	slice ssa.Value // the sorted slice (first argument, unwrapped)
+}
+
+func (c *Ctx) ruleEntitySortSites() []*sortSite {
+	var out []*sortSite
+	for _, f := range c.AllFns {
+		eachInstr(f, func(in ssa.Instruction) {
+			call, ok := in.(*ssa.Call)
+			if !ok {
+				return
+			}
+			cal := call.Call.StaticCallee()
+			if cal == nil || cal.Pkg == nil || cal.Pkg.Pkg.Path() != "sort" {
+				return
+			}
+			if cal.Name() != "SliceStable" && cal.Name() != "Slice" && cal.Name() != "Sort" && cal.Name() != "Stable" {
+				return
+			}
+			x := c.Index(f)
+			arg := x.Origin(call.Call.Args[0])
+			if mi, ok := arg.(*ssa.MakeInterface); ok {
+				arg = mi.X
+			}
+			sl, ok := arg.Type().Underlying().(*types.Slice)
+			if !ok || structName(sl.Elem()) != "RuleEntity" {
+				return
+			}
+			out = append(out, &sortSite{call: call, fn: f, slice: arg})
+		})
+	}
+	sort.Slice(out, func(i, j int) bool { return out[i].call.Pos() < out[j].call.Pos() })
+	return out
+}
+
+// ruleO1: every sort of rule entities uses less(i,j) = s[i].Salience > s[j].Salience on the sorted slice.
+func (c *Ctx) ruleO1(rule string) {
+	sites := c.ruleEntitySortSites()
+	perFn := map[string]int{}
+	for _, s := range sites {
+		x := c.Index(s.fn)
+		perFn[fnName(s.fn)]++
+		key := fmt.Sprintf("%s#sort%d", fnName(s.fn), perFn[fnName(s.fn)])
+		cal := s.call.Call.StaticCallee()
+		if cal.Name() != "SliceStable" && cal.Name() != "Slice" {
+			c.Check(rule, key, false, s.call.Pos(), "rule entities sorted with sort.%s: comparator not analysable", cal.Name())
+			continue
+		}
+		mc, ok := s.call.Call.Args[1].(*ssa.MakeClosure)
+		if !ok {
+			c.Check(rule, key, false, s.call.Pos(), "less function is not a function literal")
+			continue
+		}
+		less := mc.Fn.(*ssa.Function)
+		ok, why := x.lessIsDescendingSalience(less, s.slice)
+		c.Check(rule, key, ok, s.call.Pos(), "%s", why)
+	}
+}
+
+func (x *FnIndex) lessIsDescendingSalience(less *ssa.Function, sorted ssa.Value) (bool, string) {
+	var rets []*ssa.Return
+	eachInstr(less, func(in ssa.Instruction) {
+		if r, ok := in.(*ssa.Return); ok {
+			rets = append(rets, r)
+		}
+	})
+	if len(rets) != 1 || len(less.Params) != 2 {
+		return false, "less function is not a single comparison"
+	}
+	bo, ok := x.Origin(rets[0].Results[0]).(*ssa.BinOp)
+	if !ok {
+		return false, "less function does not return a comparison"
+	}
+	side := func(v ssa.Value) (idx ssa.Value, sl ssa.Value, ok bool) {
+		base, ok := x.isFieldLoad(v, "RuleEntity", "Salience")
+		if !ok {
+			return nil, nil, false
+		}
+		u, ok := x.Origin(base).(*ssa.UnOp)
+		if !ok {
+			return nil, nil, false
+		}
+		ia, ok := u.X.(*ssa.IndexAddr)
+		if !ok {
+			return nil, nil, false
+		}
+		return x.Origin(ia.Index), ia.X, true
+	}
+	li, ls, ok1 := side(bo.X)
+	ri, rs, ok2 := side(bo.Y)
+	if !ok1 || !ok2 {
+		return false, "less does not compare the Salience of two elements"
+	}
+	if !x.sameValue(ls, sorted) || !x.sameValue(rs, sorted) {
+		return false, "less indexes " + x.Describe(ls) + ", but " + x.Describe(sorted) + " is being sorted"
+	}
+	i, j := ssa.Value(less.Params[0]), ssa.Value(less.Params[1])
+	switch {
+	case bo.Op == token.GTR && li == i && ri == j:
+		return true, "less(i,j) = s[i].Salience > s[j].Salience (descending)"
+	case bo.Op == token.LSS && li == j && ri == i:
+		return true, "less(i,j) = s[j].Salience < s[i].Salience (descending)"
+	}
+	return false, fmt.Sprintf("less(i,j) is s[%s].Salience %s s[%s].Salience: not a strict descending-salience order", x.Describe(li), bo.Op, x.Describe(ri))
+}
+
+// ---- O2: order source of a sequential loop ------------------------------------
+
+// orderSource classifies the slice a loop ranges over: "container" (kc.SortRules),
+// "sorted-local" (a local slice sorted on every path unless shorter than 2),
+// "unsorted-local", or "other".
+func (c *Ctx) orderSource(fn *ssa.Function, ranged ssa.Value, before ssa.Instruction) (string, string) {
+	x := c.Index(fn)
+	base, _, _ := x.sliceInterval(ranged)
+	if b, ok := x.isFieldLoad(base, "KnowledgeContext", "SortRules"); ok {
+		return "container", x.Describe(b) + ".SortRules"
+	}
+	cell := x.Cell(base)
+	if cell == nil {
+		return "other", x.Describe(base)
+	}
+	// sort calls on this cell
+	var sorts []*ssa.Call
+	for _, s := range c.ruleEntitySortSites() {
+		if s.fn == fn && x.Cell(s.slice) == cell {
+			sorts = append(sorts, s.call)
+		}
+	}
+	if len(sorts) == 0 {
+		return "unsorted-local", cell.Comment
+	}
+	isSort := func(in ssa.Instruction) bool {
+		for _, s := range sorts {
+			if in == ssa.Instruction(s) {
+				return true
+			}
+		}
+		return false
+	}
+	// tests `len(cell) >= 2` whose true edge leads to the sort
+	isLenTest := func(in ssa.Instruction) bool {
+		iff, ok := in.(*ssa.If)
+		if !ok {
+			return false
+		}
+		bo, ok := iff.Cond.(*ssa.BinOp)
+		if !ok {
+			return false
+		}
+		la, isLen := builtinCall(bo.X, "len")
+		k, isK := constInt(bo.Y)
+		if !isLen || !isK || x.Cell(la[0]) != cell {
+			return false
+		}
+		if !((bo.Op == token.GEQ && k == 2) || (bo.Op == token.GTR && k == 1)) {
+			return false
+		}
+		for _, s := range sorts {
+			if x.edgeDominated(iff.Block(), 0)[s.Block()] {
+				return true
+			}
+		}
+		return false
+	}
+	// every path from the last append to the use passes the sort or the len test
+	var lastStores []ssa.Instruction
+	for _, st := range x.stores[cell] {
+		lastStores = append(lastStores, st)
+	}
+	for _, st := range lastStores {
+		if _, found := pathExists(fn, st, func(in ssa.Instruction) bool { return in == before }, func(in ssa.Instruction) bool { return isSort(in) || isLenTest(in) || x.isStoreTo(in, cell) }); found {
+			return "unsorted-local", cell.Comment + " (a path from an append reaches the loop without the sort)"
+		}
+	}
+	return "sorted-local", cell.Comment
+}
+
+func (x *FnIndex) isStoreTo(in ssa.Instruction, cell *ssa.Alloc) bool {
+	st, ok := in.(*ssa.Store)
+	return ok && x.ResolveAddr(st.Addr) == ssa.Value(cell)
+}
